@@ -228,6 +228,19 @@ def scalar_compare(op, a, b):
     if is_intlike(a) and is_intlike(b) and not isinstance(a, Fraction) and not isinstance(b, Fraction):
         return SBool(_CMP[op](iterm(a), iterm(b)))
     t = _CMP[op](rterm(a), rterm(b))
+    ia, ib = infsign(a), infsign(b)
+    if not _fin(ia) or not _fin(ib):
+        # IEEE order with +-inf: compare the signs of infinity first, the finite values only when both are finite
+        sa, sb = _iz(ia), _iz(ib)
+        both_fin = z3.And(sa == 0, sb == 0)
+        if op in ("Lt", "LtE", "Gt", "GtE"):
+            strict = {"Lt": sa < sb, "LtE": sa < sb, "Gt": sa > sb, "GtE": sa > sb}[op]
+            same_inf = z3.And(sa == sb, sa != 0)
+            t = z3.Or(strict, z3.And(both_fin, t), z3.And(same_inf, z3.BoolVal(op in ("LtE", "GtE"))))
+        elif op == "Eq":
+            t = z3.Or(z3.And(both_fin, t), z3.And(sa == sb, sa != 0))
+        elif op == "NotEq":
+            t = z3.Not(z3.Or(z3.And(both_fin, rterm(a) == rterm(b)), z3.And(sa == sb, sa != 0)))
     nan = zor(nanflag(a), nanflag(b))
     if nan is False:
         return SBool(t)
@@ -310,6 +323,13 @@ class SArray(Sym):
             return
         if not self.writable:
             I.raise_py("ValueError", "assignment destination is read-only")
+        p2 = getattr(self, "parent2d", None)
+        if p2 is not None:
+            # a column of a matrix is a view: the store goes through to the matrix
+            m, c = p2
+            old2 = m.snap()
+            m.write(I, lambda r, cc: newfn(r) if cc == c else old2(r, cc))
+            return
         self._fn = newfn
         I.log_mutation(self)
 
